@@ -693,6 +693,10 @@ def spaces(ctx):
                          faults=1),
               make_space("restart-2p-preempt2-small", "restart", 2, 2, 0, s,
                          neth=1, nslot=2),
+              # (a joiner that gets in between the last leaver's rmdir and
+              # its detach, and is still running then, takes three)
+              make_space("full-2p-preempt3-small", "full", 2, 3, 0, s,
+                         neth=1, nslot=2),
               # installer, a joiner whose start fails, a third one that
               # starts afterwards (and every other order of the three)
               make_space("full-3p-preempt1-fault1-small", "full", 3, 1, 0, s,
